@@ -109,7 +109,7 @@ func runC20(c *core.Case) *core.Result {
 	ngo := 2 + r.Intn(7)
 	withRemote := c.Index%8 >= 4
 	calls := tierN(c.Tier, 30, 50)
-	noTx := c.Index%2 == 0 // rounds without transactions keep the recorded histories complete
+	noTx := (c.Index/8)%2 == 0 // rounds without transactions keep the recorded histories complete
 	key := fmt.Sprintf("g%d", c.Index)
 	c.Step("type=%s goroutines=%d calls=%d second-client=%v", typ, ngo, calls, withRemote)
 	// yields at the client hook points
